@@ -6,3 +6,5 @@ import SmtpV.Props.C06
 #print axioms SmtpV.Props.C06.C06_chunk_over_limit
 #print axioms SmtpV.Props.C06.C06_declared_size_refused
 #print axioms SmtpV.Props.C06.C06_accepted_chunk_bounded
+#print axioms SmtpV.Props.C06.C06_no_delivery_over_limit
+#print axioms SmtpV.Props.C06.C06_accounting_invariant
